@@ -132,6 +132,9 @@ static void end_event(const std::string& outcome, const std::string& what, const
   if (!type.empty()) {
     e["type"] = type;
   }
+  if (outcome != "ok") {
+    e["throw_site"] = g.last_throw;
+  }
   Json::Value st(Json::objectValue);
   for (const auto& kv : Oomd::getStats()) {
     st[kv.first] = kv.second;
@@ -161,7 +164,9 @@ static void end_event(const std::string& outcome, const std::string& what, const
   }
   g.trace_path = base + ".trace";
   g.trace_fd = ::open(g.trace_path.c_str(), O_WRONLY | O_CREAT | O_TRUNC | O_CLOEXEC, 0644);
+#if !defined(__SANITIZE_ADDRESS__)
   signal(SIGABRT, on_fatal_signal);
+#endif
   signal(SIGSEGV, on_fatal_signal);
   signal(SIGBUS, on_fatal_signal);
   signal(SIGFPE, on_fatal_signal);
@@ -181,6 +186,7 @@ static void end_event(const std::string& outcome, const std::string& what, const
     }
     Json::Value e;
     e["ev"] = "terminate";
+    e["throw_site"] = g.last_throw;
     e["what"] = what;
     e["type"] = type;
     ev(e);
